@@ -82,6 +82,12 @@ class Ctx:
                     break
             if scope is None or not bad or self.pid in scope:
                 self.problems.append(('translator', out.strip()))
+        # summing rules of the statistics (C10)
+        rc4, out4, _ = sh([sys.executable, os.path.join(VERIF, 'tools', 'statsites.py'), REPO, os.path.join(COQ, 'gen')])
+        if self.pid == 'C10':
+            self.say('translator:', out4.strip())
+            if rc4 != 0:
+                self.problems.append(('translator', out4.strip()))
         # signature tables of C04 (kept fresh on every run; only C04 reports a failure of this translator)
         rc2, out2, dt2 = sh([sys.executable, os.path.join(VERIF, 'tools', 'c04.py'), '--tables', REPO, os.path.join(COQ, 'gen')])
         self.tables_msg = out2.strip()
